@@ -1,10 +1,159 @@
 (* C01 — the checksum-database client never returns or caches unauthenticated data.
-   Property theorems only; each is closed by [exact] of a lemma proved elsewhere. *)
-From Verif.Base Require Import Bytes.
-From Verif.Tlog Require Import Index Tree Codec Tile TileReader.
-From Verif.Note Require Import Note.
-From Verif.Client Require Import Seq SeqProofs.
+   Property theorems only; each is closed by [exact] of a lemma proved elsewhere
+   (Client/SeqProofs*.v).  The model is Client/Seq.v: a sequential step machine for
+   sumdb.Client over an adversarial world (remote answers, cache and configuration are
+   arbitrary).  C10 enters through Tlog/TileSpec.v (NodeAt R N l o x: a Merkle path leads from
+   the hash x of the complete subtree (l, o) to the root R of the tree of size N; tile_ok) and
+   Tlog/TileProofsSound.v.
 
+   Vocabulary (definitions in Client/SeqProofsSafe.v, all relative to the configured verifiers
+   vs and server name):
+     signed_tree V vs msg t   msg opens under vs (note.Open, model Note/Note.v, signature oracle V)
+                              to a text that ParseTree maps to t
+     node_auth NodeAt R N i x the stored-hash index i splits to (l, o) and NodeAt R N l o x
+     auth_record .. d         d parses (ParseRecord) to (id, text, rest) and leaf_hash text is
+                              node_auth at index StoredHashIndex(0, id) of a signed, non-empty tree
+     ClientInv .. c           fresh client | dead client (memoised init error) | initialised client
+                              whose latest head is the empty timeline or a signed tree and whose
+                              memoised lookups are auth_record
+     key_ok sha vs name w     vs/name are what note.NewVerifier makes of the world's "key" file
+   Standing premise of every theorem: signed_small, the domain guard "a tree that opens under the
+   configured key has fewer than 2^62 records" (the tlog/tile models mirror int64 only there). *)
+From Verif.Base Require Import Bytes.
+From Verif.Tlog Require Import Index Tree Codec Tile TileReader TileSpec.
+From Verif.Note Require Import Note.
+From Verif.Base Require Import Wire.
+From Verif.Client Require Import Seq SeqProofs SeqProofsTile SeqProofsSafe SeqProofsTop SeqProofsInst.
+From Verif.Client Require DispatchClient.
+
+(* lookup_safe: an Ok result is exactly the go.sum lines (prefix filter over the lines of the
+   response) of a response whose record hash is authenticated, at the stored-hash index of its id,
+   by a Merkle path (NodeAt) to the root of a non-empty tree signed under the configured key. *)
+Theorem C01_lookup_safe :
+  forall sha leaf_hash node_hash V esc_path esc_vers skip vs name,
+  (forall msg t, signed_tree V vs msg t -> Codec.tN t < 2 ^ 62) ->
+  forall w c path vers lines evs w' c',
+  ClientInv leaf_hash V (NodeAt node_hash) vs name c ->
+  (c_init c = None -> key_ok sha vs name w) ->
+  lookup sha leaf_hash node_hash V esc_path esc_vers skip w c path vers = (LOk lines, evs, w', c') ->
+  exists data id text rest tmsg t,
+    lines = result_lines path vers data /\
+    parse_record data = Index.Ok (id, text, rest) /\
+    signed_tree V vs tmsg t /\ (id < Codec.tN t /\ 0 < Codec.tN t) /\
+    node_auth (NodeAt node_hash) (Codec.tH t) (Codec.tN t) (stored_hash_index 0 id) (leaf_hash text).
+Proof. exact lookup_safe_c10. Qed.
+Print Assumptions C01_lookup_safe.
+
+(* the same with the verified Merkle path as an explicit RecordProof accepted by CheckRecord
+   (through C10's nodeat_record_path).  A response whose id is negative is checked as record 0
+   (StoredHashIndex(0, id) = 0 for id <= 0), hence Z.max id 0. *)
+Theorem C01_lookup_safe_merkle_path :
+  forall sha leaf_hash node_hash V esc_path esc_vers skip vs name,
+  (forall msg t, signed_tree V vs msg t -> Codec.tN t < 2 ^ 62) ->
+  forall w c path vers lines evs w' c',
+  ClientInv leaf_hash V (NodeAt node_hash) vs name c ->
+  (c_init c = None -> key_ok sha vs name w) ->
+  lookup sha leaf_hash node_hash V esc_path esc_vers skip w c path vers = (LOk lines, evs, w', c') ->
+  exists data id text rest tmsg t p,
+    lines = result_lines path vers data /\
+    parse_record data = Index.Ok (id, text, rest) /\
+    signed_tree V vs tmsg t /\ Z.max id 0 < Codec.tN t /\
+    check_record node_hash p (Codec.tN t) (Codec.tH t) (Z.max id 0) (leaf_hash text) = Index.Ok tt.
+Proof. exact lookup_safe_path_c10. Qed.
+Print Assumptions C01_lookup_safe_merkle_path.
+
+(* writes_authenticated, along any history of lookups by any number of clients sharing the world:
+   every WriteCache is a tile that is tile_ok w.r.t. the root of a signed tree, or a lookup file
+   holding an authenticated record. *)
+Theorem C01_writes_authenticated :
+  forall sha leaf_hash node_hash V esc_path esc_vers skip vs name,
+  (forall msg t, signed_tree V vs msg t -> Codec.tN t < 2 ^ 62) ->
+  forall steps w cs rs evs w' cs' f d,
+  (forall i, ClientInv leaf_hash V (NodeAt node_hash) vs name (cs i)) -> key_ok sha vs name w ->
+  run sha leaf_hash node_hash V esc_path esc_vers skip steps w cs = (rs, evs, w', cs') ->
+  In (EvWriteCache f d) evs ->
+  (exists t tmsg tr, f = tile_cache_key name t /\ signed_tree V vs tmsg tr /\
+                     tile_ok node_hash (Codec.tH tr) (Codec.tN tr) t d) \/
+  ((exists ep ev, f = name ++ B "/lookup/" ++ ep ++ [64] ++ ev) /\
+   auth_record leaf_hash V (NodeAt node_hash) vs d).
+Proof. exact writes_authenticated_c10. Qed.
+Print Assumptions C01_writes_authenticated.
+
+(* ... every WriteConfig writes a signed tree (and more: see C13), every event is safe, and
+   ClientInv is preserved for every client *)
+Theorem C01_history_safe :
+  forall sha leaf_hash node_hash V esc_path esc_vers skip vs name,
+  (forall msg t, signed_tree V vs msg t -> Codec.tN t < 2 ^ 62) ->
+  forall steps w cs rs evs w' cs',
+  (forall i, ClientInv leaf_hash V (NodeAt node_hash) vs name (cs i)) -> key_ok sha vs name w ->
+  run sha leaf_hash node_hash V esc_path esc_vers skip steps w cs = (rs, evs, w', cs') ->
+  (forall i, ClientInv leaf_hash V (NodeAt node_hash) vs name (cs' i)) /\ key_ok sha vs name w' /\
+  Forall (ev_safe leaf_hash node_hash V (NodeAt node_hash) (tile_ok node_hash) vs name) evs.
+Proof. exact run_safe_c10. Qed.
+Print Assumptions C01_history_safe.
+
+(* one Lookup: invariant, events, result, memoised security errors, and the model's fuel for the
+   compare-and-swap loop of mergeLatest never runs out *)
+Theorem C01_lookup_spec :
+  forall sha leaf_hash node_hash V esc_path esc_vers skip vs name,
+  (forall msg t, signed_tree V vs msg t -> Codec.tN t < 2 ^ 62) ->
+  forall w c path vers r evs w' c',
+  ClientInv leaf_hash V (NodeAt node_hash) vs name c ->
+  (c_init c = None -> key_ok sha vs name w) ->
+  lookup sha leaf_hash node_hash V esc_path esc_vers skip w c path vers = (r, evs, w', c') ->
+  ClientInv leaf_hash V (NodeAt node_hash) vs name c' /\
+  Forall (ev_safe leaf_hash node_hash V (NodeAt node_hash) (tile_ok node_hash) vs name) evs /\
+  assoc (B "key") (w_config w') = assoc (B "key") (w_config w) /\
+  (forall lines, r = LOk lines ->
+     exists d, auth_record leaf_hash V (NodeAt node_hash) vs d /\ lines = result_lines path vers d) /\
+  (r = LErr ESecurity ->
+     Exists is_sec evs \/ c_init c = Some (Some ESecurity) \/ exists f, In (f, RErr ESecurity) (c_records c)) /\
+  r <> LErr EFuelC /\
+  (sec_memo c' -> sec_memo c \/ Exists is_sec evs).
+Proof. exact lookup_spec_c10. Qed.
+Print Assumptions C01_lookup_spec.
+
+(* what "safe" means for each kind of event, spelled out *)
+Theorem C01_ev_safe_unfold :
+  forall leaf_hash node_hash V NodeAt tile_ok vs name e,
+  ev_safe leaf_hash node_hash V NodeAt tile_ok vs name e <->
+  match e with
+  | EvReadRemote _ | EvReadCache _ | EvReadConfig _ => True
+  | EvWriteCache f d =>
+      (exists t tmsg tr, f = tile_cache_key name t /\ signed_tree V vs tmsg tr /\
+                         tile_ok (Codec.tH tr) (Codec.tN tr) t d) \/
+      ((exists ep ev, f = name ++ B "/lookup/" ++ ep ++ [64] ++ ev) /\ auth_record leaf_hash V NodeAt vs d)
+  | EvWriteConfig f old new ok =>
+      f = latest_file name /\
+      exists tnew, signed_tree V vs new tnew /\
+        (old = [] \/ exists told, signed_tree V vs old told /\ Codec.tN told < Codec.tN tnew /\
+                                  Consistent node_hash NodeAt told tnew)
+  | EvSecurity msg =>
+      exists older newer h p, msg = security_msg older newer h p /\
+        (older = [] \/ exists t, signed_tree V vs older t) /\ (newer = [] \/ exists t, signed_tree V vs newer t)
+  end.
+Proof. intros. destruct e; reflexivity. Qed.
+Print Assumptions C01_ev_safe_unfold.
+
+(* the hypotheses are satisfiable: a new client satisfies ClientInv *)
+Example C01_new_client_inv : forall leaf_hash V NodeAt vs name,
+  ClientInv leaf_hash V NodeAt vs name (new_client 8).
+Proof. intros. unfold ClientInv, Fresh, new_client. cbn. repeat split; lia. Qed.
+
+
+(* non-vacuity of "lookup ... = (LOk lines, ...)": a concrete honest world (a log of one record,
+   tile height 1, empty stored head; real SHA-256, the signature oracle is the table in the case)
+   evaluated in the kernel: the model returns the server's line, writes the signed head to the
+   configuration, the authenticated tile and the lookup file to the cache.  (The case and the
+   expected result are one recorded correspondence case of the Go harness, wire format of
+   Base/Wire.v.) *)
+Example C01_honest_scenario_computes :
+  run_line DispatchClient.dispatch
+    (B "L2 S5363656e6172696f L7 I1 L2 L2 S6b6579 S6c6f63616c686f73742e6c6f63616c6465762f73756d64622b35346461636234642b416241754769746d6867764a442b4f566e503261766b6d41395a3631597830764b3468353846746d6f4b42350a L2 S6c6f63616c686f73742e6c6f63616c6465762f73756d64622f6c6174657374 S L0 L3 L3 S2f6c6f6f6b75702f6578302e746573742f6d304076312e302e30 S300a6578302e746573742f6d302076312e302e302068313a2b42584672614c37747550434138396977644661726f7150636d4d67304d3345414e43417a62355a3567513d0a6578302e746573742f6d302076312e302e302f676f2e6d6f642068313a636c6e577147456e6f6b36414979625677495154336a585a325337707a734f35796a686c664d575574394d3d0a0a676f2e73756d20646174616261736520747265650a310a4962497833413033715375363953746c312f6d68566776635051394941495342783241766b436a5a7670413d0a0ae28094206c6f63616c686f73742e6c6f63616c6465762f73756d646220564e724c5459575a576945556d716e547a51727a776c4e2f78676670313370696f4c56666b3138777269474e503747465934664f31397643722f64317a4349482f744d5673453848417a5069507375376e61674777616c376441773d0a I0 L3 S2f74696c652f312f302f3030302e702f31 S I1 L3 S2f74696c652f312f302f303030 S21b231dc0d37a92bbaf52b65d7f9a1560bdc3d0f48008481c7602f9028d9be90e1e887e8df8a68a0947111cf66ebb01893ec90e3de33da5afc20f1444e8c857d I0 L1 L3 S01b02e1a2b66860bc90fe3959cfd9abe4980f59eb5631d2f2b8879f05b66a0a079 S676f2e73756d20646174616261736520747265650a310a4962497833413033715375363953746c312f6d68566776635051394941495342783241766b436a5a7670413d0a S85995a21149aa9d3cd0af3c2537fc607e9d77a62a0b55f935f30ae218d3fb1856387ced7dbc2aff775cc2207fed315b04f070333e23ecbbb9da806c1a97b740c L0 L1 L3 I0 S6578302e746573742f6d30 S76312e302e30")
+  = B "L5 L1 L2 S6f6b L1 S6578302e746573742f6d302076312e302e302068313a2b42584672614c37747550434138396977644661726f7150636d4d67304d3345414e43417a62355a3567513d L1 L2 L3 S2f6c6f6f6b75702f6578302e746573742f6d304076312e302e30 S2f74696c652f312f302f303030 S2f74696c652f312f302f3030302e702f31 L3 S6c6f63616c686f73742e6c6f63616c6465762f73756d64622f6c6f6f6b75702f6578302e746573742f6d304076312e302e30 S6c6f63616c686f73742e6c6f63616c6465762f73756d64622f74696c652f312f302f303030 S6c6f63616c686f73742e6c6f63616c6465762f73756d64622f74696c652f312f302f3030302e702f31 L6 L2 S72636667 S6b6579 L2 S72636667 S6c6f63616c686f73742e6c6f63616c6465762f73756d64622f6c6174657374 L2 S72636667 S6c6f63616c686f73742e6c6f63616c6465762f73756d64622f6c6174657374 L5 S77636667 S6c6f63616c686f73742e6c6f63616c6465762f73756d64622f6c6174657374 S S676f2e73756d20646174616261736520747265650a310a4962497833413033715375363953746c312f6d68566776635051394941495342783241766b436a5a7670413d0a0ae28094206c6f63616c686f73742e6c6f63616c6465762f73756d646220564e724c5459575a576945556d716e547a51727a776c4e2f78676670313370696f4c56666b3138777269474e503747465934664f31397643722f64317a4349482f744d5673453848417a5069507375376e61674777616c376441773d0a I1 L3 S7763 S6c6f63616c686f73742e6c6f63616c6465762f73756d64622f74696c652f312f302f3030302e702f31 S21b231dc0d37a92bbaf52b65d7f9a1560bdc3d0f48008481c7602f9028d9be90 L3 S7763 S6c6f63616c686f73742e6c6f63616c6465762f73756d64622f6c6f6f6b75702f6578302e746573742f6d304076312e302e30 S300a6578302e746573742f6d302076312e302e302068313a2b42584672614c37747550434138396977644661726f7150636d4d67304d3345414e43417a62355a3567513d0a6578302e746573742f6d302076312e302e302f676f2e6d6f642068313a636c6e577147456e6f6b36414979625677495154336a585a325337707a734f35796a686c664d575574394d3d0a0a676f2e73756d20646174616261736520747265650a310a4962497833413033715375363953746c312f6d68566776635051394941495342783241766b436a5a7670413d0a0ae28094206c6f63616c686f73742e6c6f63616c6465762f73756d646220564e724c5459575a576945556d716e547a51727a776c4e2f78676670313370696f4c56666b3138777269474e503747465934664f31397643722f64317a4349482f744d5673453848417a5069507375376e61674777616c376441773d0a I0 L2 L2 S6b6579 S6c6f63616c686f73742e6c6f63616c6465762f73756d64622b35346461636234642b416241754769746d6867764a442b4f566e503261766b6d41395a3631597830764b3468353846746d6f4b42350a L2 S6c6f63616c686f73742e6c6f63616c6465762f73756d64622f6c6174657374 S676f2e73756d20646174616261736520747265650a310a4962497833413033715375363953746c312f6d68566776635051394941495342783241766b436a5a7670413d0a0ae28094206c6f63616c686f73742e6c6f63616c6465762f73756d646220564e724c5459575a576945556d716e547a51727a776c4e2f78676670313370696f4c56666b3138777269474e503747465934664f31397643722f64317a4349482f744d5673453848417a5069507375376e61674777616c376441773d0a".
+Proof. vm_compute. reflexivity. Qed.
+
+(* memoisation (parCache / singleflight): a second lookup of the same module version does no I/O *)
 Theorem C01_lookup_memo_no_ops :
   forall sha leaf_hash node_hash V esc_path esc_vers skip w c path vers epath evers r,
   skip path = false ->
@@ -16,3 +165,14 @@ Theorem C01_lookup_memo_no_ops :
               res = match r with RErr e => LErr e | ROk d => LOk (result_lines path vers d) end.
 Proof. exact lookup_memo_no_ops. Qed.
 Print Assumptions C01_lookup_memo_no_ops.
+
+(* NOT PROVED (target of DESIGN.md): lookup_honest_complete —
+     for an honest world built from any log L (remote = the server's lookup responses and tiles for
+     a size N <= length L, cache = any subset of the honest tiles and lookup files, config = the key
+     and an earlier honest head), any tile height 1..30 and any record (path, vers) of L below N:
+       lookup w c path vers = (LOk (the server's lines for (path, vers)), _, _, _)
+     and no Security event occurs (honest growth never triggers Security).
+   It needs C10 read_hashes_complete, C07 sign_open_roundtrip, C09 tree_hash_is_MTH and the codec
+   round trips composed through the stateful tile reader; none of the composition is done.  The
+   clause is decided at correspondence/oracle strength only: oracle "honest-succeeds" (every honest
+   scenario returns exactly the server's lines) and "honest-no-security" of harness/props/c01.go. *)
